@@ -74,6 +74,8 @@ def dstr(d):
     """Canonical string of a descriptor (used as the identity of atoms)."""
     if d is None:
         return '_'
+    if isinstance(d, (list, tuple)):
+        return ','.join(dstr(x) for x in d)
     if not isinstance(d, dict):
         return str(d)
     k = d.get('k')
@@ -206,9 +208,11 @@ def const_value(d):
         if l is None or r is None:
             return None
         op = d['op']
+        ops = {'+': lambda: l + r, '-': lambda: l - r, '*': lambda: l * r, '<<': lambda: l << r,
+               '>>': lambda: l >> r, '|': lambda: l | r, '&': lambda: l & r,
+               '/': lambda: (l // r if r else None), '%': lambda: (l % r if r else None)}
         try:
-            return {'+': l + r, '-': l - r, '*': l * r, '<<': l << r, '>>': l >> r, '|': l | r,
-                    '&': l & r, '/': l // r if r else None, '%': l % r if r else None}.get(op)
+            return ops[op]() if op in ops else None
         except Exception:
             return None
     return None
